@@ -111,7 +111,8 @@ def main(argv):
                     fq = ctx.repo.function_at(rel, int(ln))
                 except ValueError:
                     fq = None
-            if fq is not None and fq in ctx.repo.opaque_callers:
+            if fq is not None and fq in ctx.repo.opaque_callers and getattr(o, "kind", None) != "model":
+                # (obligations of kind "model" come from model evaluation, which interprets the new helpers themselves)
                 undecided.append((o, fq))
             else:
                 keep.append(o)
